@@ -37,7 +37,8 @@ def run_for(ctx, fam):
                            "counted)")
     ctx.std_flow(programs, 3000 if ctx.quick else 30000, "safety",
                  lambda impl: [f for f in ctx.sc_check(programs, impl, 60000 if ctx.quick else 400000)
-                               if relevant(ctx.pid, f)],
+                               if relevant(ctx.pid, f)]
+                 + (ctx.spurious_oracle(programs, impl) if ctx.pid == "C08" else []),
                  RULES[ctx.pid] + "; exhaustive small shapes sampled by seed plus seeded random programs; every "
                  "implementation iteration is replayed on the twin when the explorations differ; explored outcomes "
                  "must equal the reference outcomes (soundness for every iteration, completeness when the run passes); "
